@@ -1,5 +1,367 @@
-//! C28 harness (stub: not implemented yet).
+//! C28 — storage cleanup. Builds a real storage repository per case and runs the real `Storage::clean`.
+//!
+//! Case input: `<local> <delegates> <idstate> <namespaces>` (see `lean/HeartwoodModel/Driver/C28.lean`).
+//! The repository is created with `Repository::init` (identity document with the given delegates,
+//! threshold 1, signed by the first delegate); `refs/rad/id` is set; then the namespaces are laid out with
+//! git2 exactly as described: `<p>v…` = `refs/namespaces/<node id of p>/refs/heads/master` (+ `rad/sigrefs`
+//! written by the real `sign_refs` for `s`, a reference to a non-sigrefs commit for `c`, none for `m`);
+//! `<p>j…` = a stray `refs/namespaces/<node id of p>junk/…`. `idstate = bad` points `refs/rad/id` at a
+//! commit without an identity document. All references are snapshotted before and after.
+//! Output: `err` | `removed:<remotes>` | `cleaned:<deleted>;kept:<intact namespaces>[;partial:<…>]`.
+
+use std::collections::{BTreeMap, BTreeSet};
+
+use radicle::crypto::test::signer::MockSigner;
+use radicle::crypto::Signer as _;
+use radicle::git;
+use radicle::identity::doc::RawDoc;
+use radicle::identity::{Did, Project, Visibility};
+use radicle::node::device::Device;
+use radicle::node::{Alias, NodeId};
+use radicle::storage::git::{Repository, Storage};
+use radicle::storage::{ReadRepository, SignRepository, WriteRepository, WriteStorage};
+use verif_common::*;
+
+const N_PEERS: usize = 8;
+
+fn signer(i: usize) -> Device<MockSigner> {
+    let mut seed = [0x28u8; 32];
+    seed[0] = i as u8;
+    Device::from(MockSigner::from_seed(seed))
+}
+
+#[derive(Clone, Copy, PartialEq, Eq, Debug)]
+enum Sig {
+    Missing,
+    Valid,
+    Corrupt,
+}
+
+struct Ns {
+    peer: usize,
+    valid: bool,
+    sig: Sig,
+}
+
+fn parse_ns(s: &str) -> Option<Ns> {
+    if s.len() < 3 {
+        return None;
+    }
+    let (p, rest) = s.split_at(s.len() - 2);
+    let peer: usize = p.parse().ok().filter(|p| *p < N_PEERS)?;
+    let mut cs = rest.chars();
+    let valid = match cs.next()? {
+        'v' => true,
+        'j' => false,
+        _ => return None,
+    };
+    let sig = match cs.next()? {
+        'm' => Sig::Missing,
+        's' => Sig::Valid,
+        'c' => Sig::Corrupt,
+        _ => return None,
+    };
+    Some(Ns { peer, valid, sig })
+}
+
+type Snapshot = BTreeMap<String, BTreeMap<String, String>>; // namespace name -> refname -> target
+
+fn snapshot(raw: &git::raw::Repository) -> Snapshot {
+    let mut m: Snapshot = BTreeMap::new();
+    for r in raw.references().unwrap() {
+        let r = r.unwrap();
+        let name = r.name().unwrap().to_string();
+        if let Some(rest) = name.strip_prefix("refs/namespaces/") {
+            let (ns, sub) = rest.split_once('/').unwrap_or((rest, ""));
+            let target = match r.symbolic_target() {
+                Some(t) => format!("sym:{t}"),
+                None => r.target().map(|o| o.to_string()).unwrap_or_default(),
+            };
+            m.entry(ns.to_string()).or_default().insert(sub.to_string(), target);
+        }
+    }
+    m
+}
+
+fn bad() -> Outcome {
+    Outcome::new("bad-case").trivial().tag("bad-case")
+}
+
+fn run_case(input: &str) -> Outcome {
+    let f: Vec<&str> = input.split(' ').collect();
+    if f.len() != 4 {
+        return bad();
+    }
+    let Some(me) = f[0].parse::<usize>().ok().filter(|p| *p < N_PEERS) else { return bad() };
+    let Some(dels) = f[1].split(',').map(|x| x.parse::<usize>().ok().filter(|p| *p < N_PEERS)).collect::<Option<Vec<usize>>>() else {
+        return bad();
+    };
+    if dels.is_empty() || !(f[2] == "ok" || f[2] == "bad") {
+        return bad();
+    }
+    let nss: Vec<Ns> = if f[3] == "-" {
+        vec![]
+    } else {
+        match f[3].split(',').map(parse_ns).collect::<Option<Vec<Ns>>>() {
+            Some(v) => v,
+            None => return bad(),
+        }
+    };
+    {
+        let mut seen = BTreeSet::new();
+        if !nss.iter().all(|n| seen.insert((n.peer, n.valid))) {
+            return bad();
+        }
+    }
+    let signers: Vec<Device<MockSigner>> = (0..N_PEERS).map(signer).collect();
+    let pk = |i: usize| -> NodeId { *signers[i].public_key() };
+    let ns_name = |n: &Ns| if n.valid { pk(n.peer).to_string() } else { format!("{}junk", pk(n.peer)) };
+
+    // --- build the real storage ------------------------------------------------------------------
+    let tmp = tempfile::tempdir().unwrap();
+    let storage = Storage::open(tmp.path().join("storage"), git::UserInfo { alias: Alias::new("verif"), key: pk(me) }).unwrap();
+    let project = Project::new("acme".try_into().unwrap(), "verif".to_string(), git::RefString::try_from("master").unwrap()).unwrap();
+    let doc = RawDoc::new(project, dels.iter().map(|d| Did::from(pk(*d))).collect(), 1, Visibility::Public)
+        .verified()
+        .unwrap();
+    let d0 = dels[0];
+    let (repo, identity) = Repository::init(&doc, &storage, &signers[d0]).unwrap();
+    let rid = repo.id;
+    repo.set_remote_identity_root_to(&pk(d0), identity).unwrap();
+    repo.set_identity_head_to(identity).unwrap();
+    let raw = &repo.backend;
+    // a commit that is neither an identity nor a sigrefs commit
+    let sig = git::raw::Signature::new("verif", "verif@example.com", &git::raw::Time::new(1514817556, 0)).unwrap();
+    let tree = raw.find_tree(raw.treebuilder(None).unwrap().write().unwrap()).unwrap();
+    let x = raw.commit(None, &sig, &sig, "x", &tree, &[]).unwrap();
+    drop(tree);
+    // lay out the namespaces
+    for n in &nss {
+        let name = ns_name(n);
+        raw.reference(&format!("refs/namespaces/{name}/refs/heads/master"), x, true, "verif").unwrap();
+        if n.valid && n.sig == Sig::Valid {
+            repo.sign_refs(&signers[n.peer]).unwrap();
+        }
+    }
+    // second pass: remove / corrupt sigrefs (d0 got real ones from nothing so far; init does not sign)
+    for n in &nss {
+        let name = ns_name(n);
+        let sref = format!("refs/namespaces/{name}/refs/rad/sigrefs");
+        match (n.valid, n.sig) {
+            (true, Sig::Valid) => {}
+            (_, Sig::Missing) => {
+                if let Ok(mut r) = raw.find_reference(&sref) {
+                    r.delete().unwrap();
+                }
+            }
+            (false, _) | (true, Sig::Corrupt) => {
+                raw.reference(&sref, x, true, "verif").unwrap();
+            }
+        }
+    }
+    // the first delegate's namespace was created by `init`; remove it if the case does not list it
+    if !nss.iter().any(|n| n.valid && n.peer == d0) {
+        let names: Vec<String> = raw
+            .references_glob(&format!("refs/namespaces/{}/*", pk(d0)))
+            .unwrap()
+            .filter_map(|r| r.ok().and_then(|r| r.name().map(|s| s.to_string())))
+            .collect();
+        // symbolic refs first (rad/id -> cobs/…)
+        for pass in 0..2 {
+            for name in &names {
+                if let Ok(mut r) = raw.find_reference(name) {
+                    let symbolic = r.symbolic_target().is_some();
+                    if (pass == 0) == symbolic {
+                        r.delete().unwrap();
+                    }
+                }
+            }
+        }
+    }
+    if f[2] == "bad" {
+        raw.reference("refs/rad/id", x, true, "verif").unwrap();
+    }
+    let before = snapshot(raw);
+    let repo_path = repo.path().to_path_buf();
+    drop(repo);
+
+    // --- run the real code ---------------------------------------------------------------------
+    let res = catch(|| storage.clean(rid));
+    let res = match res {
+        Ok(r) => r,
+        Err(m) => return Outcome::new("panic").tag("panic").violation("clean-panic", m),
+    };
+    let exists = repo_path.exists();
+    let after: Snapshot = if exists { snapshot(&git::raw::Repository::open_bare(&repo_path).unwrap()) } else { BTreeMap::new() };
+
+    // --- canonical output ------------------------------------------------------------------------
+    let peer_of = |id: &NodeId| (0..N_PEERS).find(|i| pk(*i) == *id);
+    let label = |name: &str| -> String {
+        for i in 0..N_PEERS {
+            if name == pk(i).to_string() {
+                return format!("{i}v");
+            }
+            if name == format!("{}junk", pk(i)) {
+                return format!("{i}j");
+            }
+        }
+        format!("?{name}")
+    };
+    let mut kept: Vec<String> = vec![];
+    let mut partial: Vec<String> = vec![];
+    let mut gone: Vec<String> = vec![];
+    for (name, refs) in &before {
+        match after.get(name) {
+            Some(r) if r == refs => kept.push(label(name)),
+            Some(_) => partial.push(label(name)),
+            None => gone.push(name.clone()),
+        }
+    }
+    let sort_labels = |v: &mut Vec<String>| {
+        v.sort_by_key(|l| {
+            let (p, k) = l.split_at(l.len() - 1);
+            (p.parse::<usize>().unwrap_or(999), k == "j")
+        })
+    };
+    sort_labels(&mut kept);
+    sort_labels(&mut partial);
+    let show_ids = |ids: &[NodeId]| {
+        let mut v: Vec<u64> = ids.iter().map(|i| peer_of(i).map(|p| p as u64).unwrap_or(999)).collect();
+        v.sort();
+        nats(&v)
+    };
+    let join = |v: &[String]| if v.is_empty() { "-".to_string() } else { v.join(",") };
+    let changed = !(gone.is_empty() && partial.is_empty());
+    let output = match &res {
+        Err(_) => {
+            if exists && !changed {
+                "err".to_string()
+            } else {
+                "err-but-modified".to_string()
+            }
+        }
+        Ok(ids) if !exists => format!("removed:{}", show_ids(ids)),
+        Ok(ids) => {
+            let mut s = format!("cleaned:{};kept:{}", show_ids(ids), join(&kept));
+            if !partial.is_empty() {
+                s.push_str(&format!(";partial:{}", join(&partial)));
+            }
+            s
+        }
+    };
+    let mut o = Outcome::new(output.clone());
+
+    // --- oracle: the property statement on what the real code did ------------------------------------
+    let protected: BTreeSet<String> = std::iter::once(me).chain(dels.iter().copied()).map(|p| pk(p).to_string()).collect();
+    let local_has_sigrefs = before.get(&pk(me).to_string()).map(|r| r.contains_key("refs/rad/sigrefs")).unwrap_or(false);
+    if !exists {
+        if local_has_sigrefs {
+            o = o.violation("repo-removed-with-local-sigrefs", "the whole repository was removed although the local node has rad/sigrefs in it");
+        }
+    } else {
+        let returned: BTreeSet<String> = res.as_ref().map(|ids| ids.iter().map(|i| i.to_string()).collect()).unwrap_or_default();
+        for (name, refs) in &before {
+            let intact = after.get(name) == Some(refs);
+            if intact {
+                continue;
+            }
+            if *name == pk(me).to_string() {
+                o = o.violation("local-namespace-deleted", format!("references of the local node's namespace were removed ({})", label(name)));
+            } else if protected.contains(name) {
+                o = o.violation("delegate-namespace-deleted", format!("references of a delegate's namespace were removed ({})", label(name)));
+            } else if !returned.contains(name) {
+                o = o.violation("unlisted-namespace-removed", format!("namespace {} lost references but is not among the returned remotes", label(name)));
+            }
+        }
+        if let Ok(ids) = &res {
+            for id in ids {
+                if protected.contains(&id.to_string()) {
+                    o = o.violation("returned-local-or-delegate", format!("clean reports the local node or a delegate as deleted: {}", show_ids(&[*id])));
+                }
+            }
+        }
+    }
+    // --- distribution --------------------------------------------------------------------------
+    o = o.tag(format!("out-{}", output.split(':').next().unwrap()));
+    let local_ns = nss.iter().find(|n| n.valid && n.peer == me);
+    o = o.tag(match local_ns.map(|n| n.sig) {
+        None => "local-ns-absent",
+        Some(Sig::Missing) => "local-sigrefs-missing",
+        Some(Sig::Valid) => "local-sigrefs-valid",
+        Some(Sig::Corrupt) => "local-sigrefs-corrupt",
+    });
+    if dels.contains(&me) {
+        o = o.tag("local-is-delegate");
+    }
+    if nss.iter().any(|n| !n.valid) {
+        o = o.tag("stray-namespace");
+    }
+    if nss.iter().any(|n| n.valid && n.peer != me && !dels.contains(&n.peer) && n.sig == Sig::Missing) {
+        o = o.tag("other-without-sigrefs");
+    }
+    if nss.iter().any(|n| n.valid && n.peer != me && dels.contains(&n.peer)) {
+        o = o.tag("delegate-namespace-present");
+    }
+    if f[2] == "bad" {
+        o = o.tag("identity-unloadable");
+    }
+    o.nontrivial = nss.iter().any(|n| n.valid && n.peer != me && !dels.contains(&n.peer));
+    o
+}
+
+fn gen_case(rng: &mut Rng) -> String {
+    let n_peers = rng.range(3, N_PEERS as u64);
+    let me = rng.below(n_peers);
+    let nd = rng.range(1, 3);
+    let mut dels: Vec<u64> = vec![];
+    while (dels.len() as u64) < nd {
+        let d = if rng.chance(1, 4) { me } else { rng.below(n_peers) };
+        if !dels.contains(&d) {
+            dels.push(d);
+        }
+    }
+    let mut nss: Vec<String> = vec![];
+    for p in 0..n_peers {
+        let is_me = p == me;
+        let include = if is_me { rng.chance(9, 10) } else { rng.chance(3, 4) };
+        if include {
+            let sig = if is_me {
+                match rng.below(10) {
+                    0..=5 => 's',
+                    6..=8 => 'm',
+                    _ => 'c',
+                }
+            } else {
+                match rng.below(10) {
+                    0..=6 => 's',
+                    7..=8 => 'm',
+                    _ => 'c',
+                }
+            };
+            nss.push(format!("{p}v{sig}"));
+        }
+        if rng.chance(1, 6) {
+            nss.push(format!("{p}j{}", if rng.chance(1, 4) { 's' } else { 'm' }));
+        }
+    }
+    let idstate = if rng.chance(1, 15) { "bad" } else { "ok" };
+    format!("{me} {} {idstate} {}", nats(&dels), if nss.is_empty() { "-".into() } else { nss.join(",") })
+}
+
 fn main() {
-    eprintln!("C28: harness not implemented");
-    std::process::exit(3);
+    let mut ctx = Ctx::from_args("C28");
+    if !ctx.run_fixed(run_case) {
+        let mut rng = ctx.rng();
+        for _ in 0..ctx.size(150, 2_000) {
+            let input = gen_case(&mut rng);
+            let o = run_case(&input);
+            ctx.record(&input, o);
+        }
+    }
+    ctx.finish(
+        "random real storage repositories: local node inside/outside the delegate set (1-3 delegates), namespaces of local, delegates and \
+         other peers with rad/sigrefs signed by the real sign_refs / missing / unloadable, stray `<id>junk` directories, occasionally an \
+         unloadable identity; non-trivial = at least one namespace of a peer that is neither local nor delegate; distinct by input text",
+        false,
+    );
 }
